@@ -258,7 +258,7 @@ def case_for(seed, i):
 
 
 def shards(tier, seed, scale=1.0):
-    nsh, per, nt = {"quick": (16, 16, 5), "thorough": (32, 200, 14)}[tier]
+    nsh, per, nt = {"quick": (16, 16, 5), "thorough": (128, 20, 12)}[tier]
     per = max(1, int(per * scale))
     return [{"name": "kb-%d" % s, "seed": sub(seed, ID, s), "programs": per, "ntimes": nt, "wall_limit_s": WALL_S[tier]} for s in range(nsh)]
 
